@@ -8,7 +8,12 @@ ENTRY = dict(
          "254..258, 505..514 and every 10th); AlwaysPadToLen(n) directly around n, nil functor with hand-set state, zero-length "
          "neighbours that make the bufio buffer exactly full, no extensions, two/three padding extensions (error); specs "
          "fingerprinted (Fingerprinter.FingerprintClientHello, i.e. FromRaw) from the parrots' own padded output and re-applied "
-         "with the captured, a longer and a shorter server name. Every case: Hello.Raw recomputed by the model byte for byte. "
+         "with the captured, a longer and a shorter server name; and fingerprinting under every Fingerprinter flag combination "
+         "(AllowBluntMimicry x AlwaysAddPadding x RealPSKResumption) of captures padded to other lengths than 512 (AlwaysPadToLen "
+         "targets 300..900, hand-set padding, bodies of 0/1/many bytes, 512 reached from outside the 256..511 window), captures "
+         "without a padding extension, captures ending in pre_shared_key, a capture needing blunt mimicry, and parrots re-padded "
+         "to 617/700..899 or sent unpadded: regenerated length compared with the captured one, installed functor classified, "
+         "the model applying always_add_padding after from_raw_install (added extension must sit at the observed position). Every case: Hello.Raw recomputed by the model byte for byte. "
          "Distinct by (spec, variant); non-trivial when a padding extension is emitted / the policy is active / an error is returned.",
     trusted_base=["independent ClientHello framing parser and padding oracle in harness/cmd/c05/oracle.go",
                   "behavioural classification of the GetPaddingLen functor (compared with reference functors on 0..1300)",
